@@ -39,6 +39,7 @@ func runC11(c *core.Ctx) {
 	c.Rule("R5", "terminal error returns before resultTracker.done", 1)
 	c.Rule("R6", "at most one call per instance", 1)
 	c.Rule("R7", "ReplicationSet.Do: per-goroutine delay timers", 1)
+	c.Rule("R8", "DoUntilQuorum and the single-set case of DoMultiUntilQuorum… delegate to the analysed function", 2)
 	pkg := c.Prog.Pkg("ring")
 	fn := an.FindFunc(pkg, "DoUntilQuorumWithoutSuccessfulContextCancellation")
 	if fn == nil {
@@ -467,6 +468,7 @@ func runC11(c *core.Ctx) {
 		}
 	}
 	c11Legacy(c)
+	c11Entry(c)
 }
 
 func c11Drain(c *core.Ctx, fn *an.Fn, resultsChan, remaining types.Object) {
@@ -605,4 +607,84 @@ func c11Legacy(c *core.Ctx) {
 		})
 	}
 	c.Check(len(bad) == 0 && n >= 1, "R7", "func=ReplicationSet.Do:timers", fn.Pos(), fmt.Sprintf("%d timer receives inside per-instance goroutines, each on a timer created by that goroutine; shared timers: %v", n, bad), n)
+}
+
+func c11Entry(c *core.Ctx) {
+	pkg := c.Prog.Pkg("ring")
+	target := "DoUntilQuorumWithoutSuccessfulContextCancellation("
+	if fn := an.FindFunc(pkg, "DoUntilQuorum"); fn != nil {
+		c.Analysed(fn.String())
+		g := fn.Graph()
+		ok, rc := false, ""
+		nret := 0
+		for _, b := range g.Blocks {
+			if r := an.ReturnOf(b); r != nil {
+				nret++
+				rc = fn.Canon(r.Results[0])
+				ok = len(r.Results) == 1 && (strings.HasPrefix(rc, target+"context.WithCancel(p0)#0, p1, p2, ") || strings.HasPrefix(rc, target+"ctx, p1, p2, ")) && strings.HasSuffix(rc, ", p4)")
+			}
+		}
+		// the adapter calls f exactly once with the context/instance it was given
+		adapters := 0
+		for _, l := range fn.AllLits() {
+			calls := []an.Call{}
+			for _, call := range l.Calls(false) {
+				if l.Canon(call.Expr.Fun) == "p3" {
+					calls = append(calls, call)
+				}
+			}
+			if len(calls) == 1 && l.Canon(calls[0].Expr.Args[0]) == "λp0" && l.Canon(calls[0].Expr.Args[1]) == "λp1" {
+				adapters++
+			}
+		}
+		// cancel deferred
+		deferred := false
+		fn.InspectShallow(func(n ast.Node) bool {
+			if ds, isD := n.(*ast.DeferStmt); isD && strings.HasPrefix(fn.Canon(ds.Call.Fun), "context.WithCancel(") && strings.HasSuffix(fn.Canon(ds.Call.Fun), ")#1") {
+				deferred = true
+			}
+			return true
+		})
+		c.Check(ok && nret == 1 && adapters == 1 && deferred, "R8", "func=DoUntilQuorum", fn.Pos(), fmt.Sprintf("single return delegating to the analysed function with a cancellable child context whose cancel is deferred (=%v) and an adapter that calls f once (=%d): %s", deferred, adapters, rc), 1)
+	} else {
+		c.Miss("R8", "func=DoUntilQuorum", "not found")
+	}
+	if fn := an.FindFunc(pkg, "DoMultiUntilQuorumWithoutSuccessfulContextCancellation"); fn != nil {
+		c.Analysed(fn.String())
+		g := fn.Graph()
+		var single an.Loc
+		rcs := []string{}
+		for _, b := range g.Blocks {
+			if r := an.ReturnOf(b); r != nil && len(r.Results) >= 1 {
+				rc := fn.Canon(r.Results[0])
+				rcs = append(rcs, rc)
+				if strings.HasPrefix(rc, target+"p0, p1[0], p2, p3, p4)") {
+					single = g.Locate(r)
+				}
+			}
+		}
+		ok := single.Valid()
+		if ok {
+			t := an.Table{G: g, From: g.EntryLoc(), Atoms: []an.Atom{{Name: "n", Values: []string{"0", "1", "many"}}}, MayOnly: true,
+				Binder: &an.Binder{Fn: fn}, Targets: []an.Loc{single}, Want: func(r an.Row, _ int) an.Tri { return an.FromBool(r["n"] == "1") }}
+			t.Binder.Eq = map[string]string{}
+			// len(sets) == 0 / == 1 are equality tests against constants: evaluate with a custom leaf
+			bad := []string{}
+			for _, v := range []string{"0", "1", "2"} {
+				leaf := func(e ast.Expr, st an.Store) an.Tri {
+					if be, isB := an.Unparen(e).(*ast.BinaryExpr); isB && be.Op == token.EQL && fn.Canon(be.X) == "len(p1)" {
+						return an.FromBool(fn.Canon(be.Y) == v)
+					}
+					return an.U
+				}
+				ex := g.Exec(g.EntryLoc(), []an.Loc{single}, leaf, an.ExecOpts{})
+				if ex.May[0] != (v == "1") {
+					bad = append(bad, "len(sets)="+v)
+				}
+			}
+			ok = len(bad) == 0
+			_ = t
+		}
+		c.Check(ok, "R8", "func=DoMultiUntilQuorumWithoutSuccessfulContextCancellation:single", fn.Pos(), fmt.Sprintf("with exactly one replication set the call is delegated unchanged to the analysed single-set function (returns: %v)", rcs), 3)
+	}
 }
